@@ -326,7 +326,7 @@ class FnBounds(object):
         for text, terms in CLASS_INVARIANTS[f["rec"]]:
             G = self.inv_lin(terms)
             fake = {"id": "inv:%s:%s" % (text, node["id"]), "l": node.get("l", f["line"]), "k": "Invariant"}
-            if self.prove(G, st):
+            if self.prove(G, st, 4):
                 self.record(fake, "invariant", text, "ok", "class invariant holds when the function returns")
             else:
                 self.record(fake, "invariant", text, "violation",
@@ -389,6 +389,104 @@ class FnBounds(object):
             else:
                 self.record(args[pidx], "precondition", text, "violation" if cap is not None else "undecided",
                             "output buffer %s has %s bytes" % (facts.expr_str(a), cap))
+
+    REF_CACHE = {}
+
+    def ref_effects(self, callee):
+        """{param index: Lin over the callee's p0 atoms} final value of every non-const int& parameter, when all
+        normal exits agree; index -> None when the callee changes it in a way the analysis cannot express"""
+        key = (self.db.key, callee)
+        if key in FnBounds.REF_CACHE:
+            return FnBounds.REF_CACHE[key]
+        g = self.db.fn(callee)
+        res = {}
+        if g is not None:
+            idxs = []
+            for i, p in enumerate(g["params"]):
+                t = facts.tyi(g, p["t"])
+                if t and t.get("k") == "ref" and is_int(t.get("to")) and not (t.get("to") or {}).get("const"):
+                    idxs.append(i)
+            if idxs:
+                FnBounds.REF_CACHE[key] = dict((i, None) for i in idxs)
+                if g.get("cfg") and self.depth < 2:
+                    try:
+                        b = FnBounds(self.db, g, depth=self.depth + 1).run()
+                        for i in idxs:
+                            v = g["params"][i]["var"]
+                            vals = set(st.sym.get(v) for st in b.exit_states)
+                            if len(vals) == 1 and None not in vals:
+                                L = list(vals)[0]
+                                if not L.mentions(lambda a: a[0] != "p0"):
+                                    res[i] = L
+                                    continue
+                            res[i] = None
+                    except Exception:
+                        res = dict((i, None) for i in idxs)
+                else:
+                    res = dict((i, None) for i in idxs)
+        FnBounds.REF_CACHE[key] = res
+        return res
+
+    def apply_ref_effects(self, n, args, st, pos):
+        callee = n.get("callee")
+        if not callee or n.get("ext"):
+            return
+        eff = self.ref_effects(callee)
+        if not eff:
+            return
+        g = self.db.fn(callee)
+        argl = {}
+        for j, pp in enumerate(g["params"]):
+            if j < len(args) and isinstance(args[j], dict):
+                argl[("p0", pp["var"])] = self.lin(args[j], st, pos)
+        for i, L in eff.items():
+            if i >= len(args):
+                continue
+            target = strip(args[i])
+            new = None
+            if L is not None:
+                new = L
+                for at in L.atoms():
+                    if argl.get(at) is not None:
+                        new = new.subst(at, argl[at])
+                    else:
+                        new = None
+                        break
+            if target["k"] == "DeclRefExpr" and target.get("var"):
+                self.set_var(st, target["var"], new, n)
+            elif target["k"] == "MemberExpr" and target.get("isfield"):
+                fa = ("fld", facts.expr_str(target))
+                old = ("ld", "old%s" % n["id"], "old:" + fa[1])
+                self.fresh.add(old)
+                if new is not None:
+                    new = new.subst(fa, atom(old))
+                st.facts = frozenset(x.subst(fa, atom(old)) for x in st.facts if not x.mentions(lambda a: a == old))
+                for v in st.sym:
+                    st.sym[v] = st.sym[v].subst(fa, atom(old))
+                if new is not None:
+                    st.facts = frozenset(set(st.facts) | set([atom(fa) - new, new - atom(fa)]))
+            else:
+                # modified through an expression we cannot name (e.g. *ptr_to_member): every member whose
+                # address is taken somewhere in the class may have changed
+                for a_ in self.address_taken_fields():
+                    self.kill_atoms(st, lambda x, a_=a_: x == ("fld", a_))
+
+    def address_taken_fields(self):
+        if getattr(self, "_atf", None) is not None:
+            return self._atf
+        out = set()
+        rec = self.f.get("rec")
+        for g in self.db.functions.values():
+            if g.get("rec") != rec:
+                continue
+            idx, parent = facts.index_fn(g)
+            for x in facts.fn_nodes(g):
+                if x["k"] == "UnaryOperator" and x.get("op") == "&":
+                    y = strip(x["c"][0])
+                    if y["k"] == "MemberExpr" and y.get("isfield") and y.get("c") and strip(y["c"][0])["k"] == "CXXThisExpr":
+                        out.add(y["member"])
+        self._atf = out
+        return out
 
     def callee_requirements(self, callee):
         """[(param index, need Lin over the callee's p0 atoms)] or None"""
@@ -646,6 +744,8 @@ class FnBounds(object):
         name = facts.expr_str(obj)
         b = ("vec", name)
         self.extent[b] = atom(("call", name + ".size()"))
+        if nm.startswith("std::basic_string<char"):
+            self.extent[b] = self.extent[b] + 1      # the terminating NUL of a std::string is readable
         return b
 
     def container_data(self, x, st):
@@ -690,6 +790,11 @@ class FnBounds(object):
                     return av
                 if cname == "pointer":
                     return base + ext - av
+            if cname in ("begin", "end", "cbegin", "cend") and not cfg.args(e) and self.vec_base(rs) is not None:
+                vb = self.vec_base(rs)
+                if cname in ("begin", "cbegin"):
+                    return atom(vb)
+                return atom(vb) + atom(("call", vb[1] + ".size()"))
             # std::min / accessor calls on stable objects
             if is_int(t) or is_ptr(t):
                 if not cfg.args(e) and (e.get("callee", "").endswith(" const")):
@@ -770,13 +875,13 @@ class FnBounds(object):
         return tot
 
     # ------------------------------------------------------------------ prover access
-    def prove(self, G, st):
+    def prove(self, G, st, depth=3):
         fs = list(st.facts) + list(self.pending) + list(getattr(self, "extra_facts", []) or [])
         # invariant: a stream never has more bytes left than its view holds
         for sv, (b, e) in st.streams.items():
             fs.append(e - atom(("av", sv)))
         p = Prover(fs, self.signed, self.ub)
-        return p.prove(G, 3)
+        return p.prove(G, depth)
 
     # ------------------------------------------------------------------ dataflow
     def run(self):
@@ -806,6 +911,7 @@ class FnBounds(object):
             if g.exit in [x for x in succs if x is not None]:
                 last = g.idx.get(blk["e"][-1]) if blk["e"] else None
                 self.check_exit_invariants(st, last or self.f["body"])
+                self.exit_states.append(st.copy())
             for k_, s in enumerate(succs):
                 if s is None:
                     continue
@@ -1266,8 +1372,8 @@ class FnBounds(object):
                 self.kill_atoms(st, lambda a: a == fa)
                 if R is not None:
                     st.facts = frozenset(set(st.facts) | set([atom(fa) - R, R - atom(fa)]))
-        if k == "DeclStmt":
-            for ch in n.get("c", []):
+        if k in ("DeclStmt", "VarDecl"):
+            for ch in (n.get("c", []) if k == "DeclStmt" else [n]):
                 if ch.get("k") != "VarDecl":
                     continue
                 t = facts.tyi(f, ch.get("t"))
@@ -1627,8 +1733,63 @@ class FnBounds(object):
             a = cfg.args(n)
             if len(a) >= 2:
                 self.iter_pair(n, a[-2], a[-1], st)
+            self.container_mutation(n, rs, cname, st, pos)
             return st
+        if not n.get("callee", "").endswith(" const") and self.vec_base(rs) is not None and \
+                cname in ("push_back", "resize", "clear", "erase", "pop_back", "swap", "reserve", "emplace_back", "operator=", "operator+="):
+            self.container_mutation(n, rs, cname, st, pos)
+            return self.plain_call(n, st, pos)
         return self.plain_call(n, st, pos)
+
+    def container_mutation(self, n, rs, cname, st, pos):
+        """a byte container changes size: pointers into it are invalidated, its size atom moves to a ghost"""
+        vb = self.vec_base(rs)
+        if vb is None:
+            return
+        name = vb[1]
+        sz = ("call", name + ".size()")
+        args = cfg.args(n)
+        delta = None
+        newsize = None
+        f = self.f
+        if cname == "push_back" or cname == "emplace_back":
+            delta = const(1)
+        elif cname == "pop_back":
+            delta = const(-1)
+        elif cname == "clear":
+            newsize = const(0)
+        elif cname == "resize" and args:
+            newsize = self.lin(args[0], st, pos)
+        elif cname == "insert" and len(args) == 3 and is_int(facts.ty(f, strip(args[1]))):
+            delta = self.lin(args[1], st, pos)
+        elif cname in ("insert", "append", "assign") and len(args) >= 2:
+            A_, B_ = self.lin(args[-2], st, pos), self.lin(args[-1], st, pos)
+            if A_ is not None and B_ is not None and self.base_of(A_) is not None and self.base_of(A_) == self.base_of(B_):
+                d_ = B_ - A_
+                if cname == "assign":
+                    newsize = d_
+                else:
+                    delta = d_
+        gh = ("ld", "sz%s" % n["id"], "oldsize:" + name)
+        self.fresh.add(gh)
+        st.facts = frozenset(x.subst(sz, atom(gh)) for x in st.facts
+                             if not x.mentions(lambda a: a == gh or a == vb))
+        for v in list(st.sym):
+            if st.sym[v].mentions(lambda a: a == vb):
+                st.sym[v] = atom(("ld", "inv" + str(v), "invalidated"))
+            else:
+                st.sym[v] = st.sym[v].subst(sz, atom(gh))
+        for s_ in list(st.streams):
+            b_, e_ = st.streams[s_]
+            if b_.mentions(lambda a: a == vb):
+                del st.streams[s_]
+        if delta is not None:
+            delta = delta.subst(sz, atom(gh))
+            new = atom(gh) + delta
+            st.facts = frozenset(set(st.facts) | set([atom(sz) - new, new - atom(sz)]))
+        elif newsize is not None:
+            newsize = newsize.subst(sz, atom(gh))
+            st.facts = frozenset(set(st.facts) | set([atom(sz) - newsize, newsize - atom(sz)]))
 
     def iter_pair(self, node, first, last, st):
         A, B = self.lin(first, st), self.lin(last, st)
@@ -1676,6 +1837,12 @@ class FnBounds(object):
                         "copies %s bytes into a destination of %d bytes without a bound" % (L, cap))
 
     def plain_call(self, n, st, pos):
+        st = self._plain_call(n, st, pos)
+        if n["k"] in ("CallExpr", "CXXMemberCallExpr"):
+            self.apply_ref_effects(n, cfg.args(n), st, pos)
+        return st
+
+    def _plain_call(self, n, st, pos):
         f = self.f
         k = n["k"]
         if k == "CXXNewExpr":
@@ -1684,6 +1851,7 @@ class FnBounds(object):
         cname = n.get("cname")
         callee = n.get("callee")
         self.check_call_preconditions(n, args, st, pos)
+        self.pending_ref_call = (n, args)
         pre_idx = set(pi for (q_, pi) in list(PRECONDITIONS) + list(OUT_BUFFERS)
                       if callee and self.db.fn(callee) is not None and self.db.fn(callee)["qual"] == q_)
         # streams passed by non-const reference lose their facts
